@@ -385,15 +385,14 @@ func resetDir(dir string) {
 // setup creates the start state with plain os calls and unhooked Puts.
 func setup(dir, start string) *cache.Cache {
 	vos.SetInterceptor(nil)
-	if theCache == nil {
-		c, err := cache.Open(dir)
-		if err != nil {
-			vutil.Fatalf("open cache: %v", err)
-		}
-		theCache = c
+	// a Cache value per run: a run may end with an actor stopped half way (a crashed process), and whatever that actor
+	// held in memory - a lock, say - is gone with it
+	c, err := cache.Open(dir)
+	if err != nil {
+		vutil.Fatalf("open cache: %v", err)
 	}
+	theCache = c
 	resetDir(dir)
-	c := theCache
 	must := func(err error) {
 		if err != nil {
 			vutil.Fatalf("setup %s: %v", start, err)
@@ -426,8 +425,15 @@ func setup(dir, start string) *cache.Cache {
 	return c
 }
 
+// freshLookups looks every id up through a Cache value made for the purpose (a new process would have one): whatever
+// an earlier user of the directory holds in memory - or holds locked, if it stopped half way - is not in its way.
 func freshLookups(dir string) (map[string]string, []string) {
-	return lookupsThrough(dir, theCache)
+	vos.SetInterceptor(nil)
+	c, err := cache.Open(dir)
+	if err != nil {
+		vutil.Fatalf("open cache: %v", err)
+	}
+	return lookupsThrough(dir, c)
 }
 
 func lookupsThrough(dir string, c *cache.Cache) (map[string]string, []string) {
